@@ -61,6 +61,7 @@ def check(ctx):
     ctx.rule("C14-R4", "coordinates are indexed through nco_indices / ca_indices only under !skip[<same residue>] or an explicit test of the loaded index")
     _r1(ctx)
     _r2(ctx)
+    _r3_python_kabsch_sander(ctx)
     _r3(ctx)
     r3_energy_value(ctx)
     from .c05 import periodic_plumbing
@@ -258,6 +259,75 @@ def _r1_by_evaluation(ctx):
     pres = [n for n in walk_no_nested(wn) if isinstance(n, ast.Compare) and "angle_cutoff" in src(n)]
     if pres:
         ctx.note("C14-R1", pres[0], HB, "wernet_nilsson", "`angles < angle_cutoff`", "compares radians with the literal 45 (degrees): always true, no effect on the documented cone criterion")
+
+
+def _r3_python_kabsch_sander(ctx):
+    """The Python side of kabsch_sander evaluated (sa/tensym.py) with the kernel summarised as "fills hbonds[f, r, k] / henergies[f, r, k]" for two frames
+    whose bond patterns differ, and scipy.sparse.csr_matrix as a recorder that keeps the arrays it is handed (scipy does not copy them): after the
+    call, the matrix of every frame holds - data, column indices and row pointer - the bonds and energies of that frame (one buffer shared by the
+    frames would leave every matrix with the row pointer of the last)."""
+    from ..tensym import TenSym, Ten, Obj, Raised, Rat, Poly
+    from ..pysym import Unsupported as PUnsupported
+    fn = ctx.py.func(HB, "kabsch_sander")
+    F_, R_ = 2, 3
+    ev0 = TenSym({})
+    HBV = [[[2, -1], [-1, -1], [-1, -1]], [[-1, -1], [0, 2], [1, -1]]]
+    made = []
+
+    def prep(ev, c):
+        return (Ten.sym("x", (F_, 4, 3)), ev0.to_ten([[0, 1, 2]] * R_), ev0.to_ten([0, 1, 2]), ev0.to_ten([0, 0, 0]), ev0.to_ten([1, 1, 1]))
+
+    def kernel(ev, c):
+        a = [ev.ex(x) for x in c.args]
+        hb, he = a[4], a[5]
+        for f in range(F_):
+            for r in range(R_):
+                for k in range(2):
+                    hb.data[(f * R_ + r) * 2 + k] = Rat(Poly.const(HBV[f][r][k]))
+                    he.data[(f * R_ + r) * 2 + k] = Rat(Poly.var("E[%d,%d,%d]" % (f, r, k)))
+        return None
+
+    def csr(ev, c):
+        o = Obj(tag="csr", parts=ev.ex(c.args[0]), _lenient=True)
+        o._getters = {"T": lambda s_: s_}
+        made.append(o)
+        return o
+    desc = "the matrix of frame f holds the bonds, energies and row pointer of frame f (two frames with different bond patterns)"
+    try:
+        ts = TenSym({}, models={"_prep_kabsch_sander_arrays": prep, "_geometry._kabsch_sander": kernel, "scipy.sparse.csr_matrix": csr, "csr_matrix": csr})
+        ts.module_env = {"scipy": Obj(sparse=Obj(csr_matrix=None))}
+        ts.run_fn(fn, traj=Obj(tag="traj", topology=Obj(tag="top"), _lenient=True))
+    except Raised as e:
+        ctx.violated("C14-R3", fn, HB, "kabsch_sander", desc, "raises %s" % (e.exc or e))
+        return
+    except PUnsupported as e:
+        ctx.undecided("C14-R3", fn, HB, "kabsch_sander", desc, "not evaluable: %s" % e)
+        return
+    why = []
+    if len(made) != F_:
+        why.append("%d matrices for %d frames" % (len(made), F_))
+    else:
+        for f, o in enumerate(made):
+            parts = o.parts if isinstance(o.parts, (tuple, list)) and len(o.parts) == 3 else None
+            if parts is None or not all(isinstance(p_, Ten) for p_ in parts):
+                why.append("frame %d: csr_matrix is not given (data, indices, indptr)" % f)
+                continue
+            d, i, p = parts
+            wd = [Rat(Poly.var("E[%d,%d,%d]" % (f, r, k))) for r in range(R_) for k in range(2) if HBV[f][r][k] != -1]
+            wi = [HBV[f][r][k] for r in range(R_) for k in range(2) if HBV[f][r][k] != -1]
+            wp, acc = [0], 0
+            for r in range(R_):
+                acc += sum(1 for k in range(2) if HBV[f][r][k] != -1)
+                wp.append(acc)
+            gi = [int(x_.const_value()) if x_.const_value() is not None else str(x_) for x_ in i.data]
+            gp = [int(x_.const_value()) if x_.const_value() is not None else str(x_) for x_ in p.data]
+            if len(d.data) != len(wd) or any(not (a_ == b_) for a_, b_ in zip(d.data, wd)):
+                why.append("frame %d: energies %s, expected %s" % (f, [str(x_) for x_ in d.data], [str(x_) for x_ in wd]))
+            if gi != wi:
+                why.append("frame %d: acceptor columns %s, expected %s" % (f, gi, wi))
+            if gp != wp:
+                why.append("frame %d: row pointer %s, expected %s (as the matrices are left when the function returns)" % (f, gp, wp))
+    ctx.decide(not why, "C14-R3", fn, HB, "kabsch_sander", desc, "", "; ".join(why[:2]))
 
 
 def _r2(ctx):
